@@ -6,11 +6,13 @@ From Verif Require Import PyRes Str Marker MarkerBase.
 Import ListNotations.
 
 Definition str_var (n : str) : bool := negb (version_like n) && negb (str_eqb n (of_string "extra")).
-(* well-defined atoms: `extra` only with == / != ; everything else, including literal-on-the-left `in` atoms *)
+(* well-defined atoms: `extra` only with == / != ; string variables with == != in not in (GenericSpecifier accepts nothing else:
+   an ordering or ~= atom on a string variable makes the code raise InvalidSpecifier / UndefinedComparison), either operand order;
+   version-valued variables with any operator *)
 Definition ok_atom (a : atom) : bool :=
   if version_like (a_name a) then true
   else if str_eqb (a_name a) (of_string "extra") then mop_eqb (a_op a) MEq || mop_eqb (a_op a) MNe
-  else true.
+  else mop_eqb (a_op a) MEq || mop_eqb (a_op a) MNe || mop_eqb (a_op a) MIn || mop_eqb (a_op a) MNotIn.
 Fixpoint wf (m : marker) : bool :=
   match m with
   | MAtom a => ok_atom a
@@ -126,8 +128,17 @@ Section Single.
 
   Lemma str_var_split n : str_var n = true -> version_like n = false /\ str_eqb n (of_string "extra") = false.
   Proof. unfold str_var. intros H. apply andb_prop in H as [H1 H2]. apply negb_true_iff in H1, H2. auto. Qed.
-  Lemma ok_new_atom n o v : str_var n = true -> ok_atom (mkAtom n o v false) = true.
-  Proof. intros H. destruct (str_var_split n H) as [H1 H2]. unfold ok_atom. cbn [a_name a_op a_value a_rev]. rewrite H1, H2. reflexivity. Qed.
+  Definition op4 (o : mop) : bool := mop_eqb o MEq || mop_eqb o MNe || mop_eqb o MIn || mop_eqb o MNotIn.
+  Lemma ok_new_atom n o v : str_var n = true -> op4 o = true -> ok_atom (mkAtom n o v false) = true.
+  Proof. intros H Ho. destruct (str_var_split n H) as [H1 H2]. unfold ok_atom. cbn [a_name a_op a_value a_rev]. rewrite H1, H2. exact Ho. Qed.
+  Lemma ok_atom_op4 a : str_var (a_name a) = true -> ok_atom a = true -> op4 (a_op a) = true.
+  Proof. intros H O. destruct (str_var_split _ H) as [H1 H2]. unfold ok_atom in O. rewrite H1, H2 in O. exact O. Qed.
+  Lemma gen_op_in (k : bool) o1 v1 o2 v2 o v : (if k then gen_and else gen_or) o1 v1 o2 v2 = GR o v -> o = o1 \/ o = o2.
+  Proof.
+    destruct k; unfold gen_and, gen_or; (destruct (mop_eqb o1 o2 && str_eqb v1 v2); [intros [= <- _]; left; reflexivity|]);
+      destruct (Nat.ltb (op_order o2) (op_order o1)); destruct o1, o2; cbn;
+      repeat match goal with |- context [if ?c then _ else _] => destruct c end; intros H; try discriminate H; injection H as <- _; auto.
+  Qed.
   Lemma atom_eval_new e n o v : str_var n = true -> atom_eval e (mkAtom n o v false) = gen_contains o v (sv e n).
   Proof. intros H. destruct (str_var_split n H) as [H1 H2]. unfold atom_eval. cbn [a_name a_op a_value a_rev]. rewrite H1, H2. reflexivity. Qed.
 
@@ -136,7 +147,7 @@ Section Single.
   Proof.
     intros Hn. destruct vs as [|v [|w vs]]; cbn [equ_replace].
     - split; reflexivity.
-    - split; [cbn [wf]; apply ok_new_atom, Hn|]. cbn [meval]. rewrite atom_eval_new by exact Hn. cbn. rewrite orb_false_r. reflexivity.
+    - split; [cbn [wf]; apply ok_new_atom; [exact Hn | reflexivity]|]. cbn [meval]. rewrite atom_eval_new by exact Hn. cbn. rewrite orb_false_r. reflexivity.
     - split; [exact Hn | reflexivity].
   Qed.
   Lemma nem_replace_ok e n vs : str_var n = true ->
@@ -144,7 +155,7 @@ Section Single.
   Proof.
     intros Hn. destruct vs as [|v [|w vs]]; cbn [nem_replace].
     - split; reflexivity.
-    - split; [cbn [wf]; apply ok_new_atom, Hn|]. cbn [meval]. rewrite atom_eval_new by exact Hn. cbn. rewrite orb_false_r. reflexivity.
+    - split; [cbn [wf]; apply ok_new_atom; [exact Hn | reflexivity]|]. cbn [meval]. rewrite atom_eval_new by exact Hn. cbn. rewrite orb_false_r. reflexivity.
     - split; [exact Hn | reflexivity].
   Qed.
 
@@ -191,7 +202,7 @@ Section Single.
           apply andb_prop in E2 as [E2 E3]. apply mop_eqb_eq in E2. destruct (str_eqb_spec v (a_value b)); [subst|discriminate].
           rewrite <- G. reflexivity. }
         injection H as <-. split.
-        * cbn [wf]. apply ok_new_atom, SV.
+        * cbn [wf]. apply ok_new_atom; [exact SV|]. destruct (gen_op_in k _ _ _ _ _ _ EG) as [->| ->]; [exact (ok_atom_op4 a SV Oa) | exact (ok_atom_op4 b SVb Ob)].
         * intros e _. cbn [meval]. rewrite atom_eval_new by exact SV. rewrite EA, EB. exact (G e).
       + injection H as <-. split; [reflexivity|]. intros e _. rewrite EA, EB. symmetry. exact (G e).
       + injection H as <-. split; [reflexivity|]. intros e _. rewrite EA, EB. symmetry. exact (G e).
